@@ -317,6 +317,42 @@ fn cli_block(ctx: &Ctx) {
     }
 }
 
+/// stdout is a non-blocking pipe read slowly: whatever arrives must be a prefix of the plaintext, and
+/// exit 0 only with all of it.
+fn cli_nonblocking_sink(ctx: &Ctx) {
+    use crate::cli::Stdout;
+    let mut rng = Rng::fork(ctx.seed, "C04-cli-nb");
+    let alice = Ident::new("alice", "apw", &mut rng);
+    let bob = Ident::new("bob", "bpw", &mut rng);
+    let wd = WorkDir::new("c04n");
+    wd.write("kr.txt", crate::cli::keyring_text(&[(&alice, true), (&bob, true)]).as_bytes());
+    let pt = rng.bytes(200_000);
+    let chunking = refspec::natural_chunking(pt.len(), 65536);
+    let kf = refspec::encode_key_file(&alice.sk, &alice.pk, &bob.pk, &rng.arr32(), &rng.arr32(), &pt, &chunking).unwrap();
+    let pf = refspec::encode_pass_file(b"ppw", &rng.arr32(), &pt, &chunking);
+    wd.write("k.ktl", &kf);
+    wd.write("p.ktl", &pf);
+    for (mode, args, pw) in [("key", vec!["decrypt", "k.ktl", "-t", "bob", "-k", "kr.txt", "--env-pass"], "bpw"), ("password", vec!["password", "decrypt", "p.ktl", "--env-pass"], "ppw")] {
+        for (first, pause) in [(20_000usize, 400u64), (1usize, 300), (70_000, 300)] {
+            let o = Cmd::new(&wd.path, &args).pass(pw).stdout(Stdout::SlowNonBlocking { first, pause_ms: pause }).run();
+            ctx.eval();
+            let got = &o.stdout;
+            let is_prefix = got.len() <= pt.len() && got[..] == pt[..got.len()];
+            let case = || json!({"mode": mode, "sink": format!("non-blocking pipe; reader takes {} bytes, pauses {} ms, drains", first, pause), "exit": o.exit.describe(), "stderr": o.stderr_s(), "bytes_received": got.len(), "plaintext_len": pt.len(), "received_is_prefix": is_prefix});
+            match &o.exit {
+                Exit::Timeout => ctx.inconclusive("C04 cli: timeout on the non-blocking sink"),
+                _ if !is_prefix => ctx.violation("C04:cli:bytes-delivered-to-a-slow-sink-are-not-a-prefix-of-the-plaintext", case()),
+                Exit::Code(0) if got.len() != pt.len() => ctx.violation("C04:cli:success-reported-with-incomplete-output", case()),
+                Exit::Code(0) | Exit::Code(1) => {
+                    ctx.seen(&format!("cli: slow non-blocking sink -> {} with a clean prefix", o.exit.describe()));
+                    ctx.distinct(&format!("cli-nb|{}|{}", mode, first));
+                }
+                other => ctx.violation(&format!("C04:cli:abnormal-termination:{}", other.describe()), case()),
+            }
+        }
+    }
+}
+
 /// Plaintext sink that goes away before the final chunk: success must not be reported.
 fn cli_closed_sink(ctx: &Ctx) {
     use crate::cli::{Stdin, Stdout};
@@ -366,8 +402,10 @@ pub fn run(ctx: &Ctx) {
     if !crate::lib_only() {
         cli_block(ctx);
         cli_closed_sink(ctx);
+        cli_nonblocking_sink(ctx);
     }
     ctx.require("cli: plaintext sink closed", 3);
+    ctx.require("cli: slow non-blocking sink", 4);
     ctx.require("write events judged", 1000);
     ctx.require("failing runs with >=1 chunk already released", 50);
     ctx.require("small: read fault delivered", 100);
